@@ -12,7 +12,6 @@ import (
 
 type (
 	WaitGroup = sync.WaitGroup
-	Once      = sync.Once
 	Cond      = sync.Cond
 	Map       = sync.Map
 	Pool      = sync.Pool
@@ -24,11 +23,33 @@ var Debug = os.Getenv("VERIF_DEBUG") != ""
 
 func NewCond(l Locker) *Cond { return sync.NewCond(l) }
 
-func OnceFunc(f func()) func() { return sync.OnceFunc(f) }
+func OnceFunc(f func()) func() {
+	var o Once
+	return func() { o.Do(f) }
+}
 
 func OnceValue[T any](f func() T) func() T { return sync.OnceValue(f) }
 
 func OnceValues[T1, T2 any](f func() (T1, T2)) func() (T1, T2) { return sync.OnceValues(f) }
+
+// Once is sync.Once on a simulated mutex: a second caller parks with the scheduler while the first runs f (with the
+// real sync.Once it would block natively while holding the scheduler's token).
+type Once struct {
+	done bool
+	m    Mutex
+}
+
+func (o *Once) Do(f func()) {
+	if o.done {
+		return
+	}
+	o.m.Lock()
+	defer o.m.Unlock()
+	if !o.done {
+		defer func() { o.done = true }()
+		f()
+	}
+}
 
 // Mutex is a simulated mutex: Lock is a scheduling point, waiters park with the scheduler.
 type Mutex struct {
